@@ -165,6 +165,8 @@ Proof.
        m_mediasequence m_discseq m_playlisttype m_map m_skip m_segments m_parts m_preloadhint m_endlist] in *.
   assert (Hver1 : 0 <= ver) by (apply Z.leb_le; assumption).
   assert (Htd1 : 0 < td) by (apply Z.ltb_lt; assumption).
+  assert (Hstart : opt_ok (fun t => dur_signed (st_timeoffset t)) start = true) by assumption.
+  assert (Hds : opt_ok int31 ds = true) by assumption.
   assert (Hsc : opt_ok wf_server_control sc = true) by assumption.
   assert (Hpi : opt_ok (fun t => dur_pos (pi_parttarget t)) pi = true) by assumption.
   assert (Hms : int31 mseq = true) by assumption. apply int31_range in Hms.
@@ -177,6 +179,8 @@ Proof.
   apply ft_skip; [reflexivity|reflexivity|reflexivity|].
   rewrite reassoc3. apply ft_skip_tag; [apply no_crlf_lit_app; [reflexivity|apply fmt_int_no_crlf; lia]|lit|lit|].
   apply ft_skip_bool; [reflexivity|reflexivity|reflexivity|].
+  apply ft_skip_opt; [intros t Et Hr; rewrite start_marshal_render; apply ft_skip_tag; [|lit|lit|exact Hr];
+    apply no_crlf_lit_app; [reflexivity|]; subst start; apply render_attrs_no_crlf, start_attrs_ok; auto|].
   apply ft_skip_opt; [intros b _ Hr; apply ft_skip_tag; [destruct b; reflexivity|lit|lit|exact Hr]|].
   rewrite reassoc3; apply ft_skip_tag; [apply no_crlf_lit_app; [reflexivity|apply fmt_int_no_crlf; lia]|lit|lit|].
   apply ft_skip_opt; [intros t Et Hr; rewrite server_control_marshal_render; apply ft_skip_tag; [|lit|lit|exact Hr];
@@ -184,8 +188,9 @@ Proof.
   apply ft_skip_opt; [intros t Et Hr; rewrite part_inf_marshal_render; apply ft_skip_tag; [|lit|lit|exact Hr];
          apply no_crlf_lit_app; [reflexivity|]; subst pi; apply render_attrs_no_crlf, part_inf_attrs_ok; auto|].
   rewrite reassoc3; apply ft_skip_tag; [apply no_crlf_lit_app; [reflexivity|apply fmt_int_no_crlf; lia]|lit|lit|].
-  apply ft_skip_opt; [intros t _ Hr; apply ft_skip_tag; [|lit|lit|exact Hr];
-         apply no_crlf_lit_app; [reflexivity|apply fmt_int_no_crlf; lia]|].
+  apply ft_skip_opt; [intros t Et Hr; apply ft_skip_tag; [|lit|lit|exact Hr];
+         apply no_crlf_lit_app; [reflexivity|]; subst ds; cbn [opt_ok] in Hds; apply int31_range in Hds;
+         apply fmt_int_no_crlf; lia|].
   apply ft_skip_opt; [intros t Et Hr; apply ft_skip_tag; [|lit|lit|exact Hr]; subst pt; cbn [opt_ok] in Hpt;
          apply orb_true_iff in Hpt as [E|E]; apply String.eqb_eq in E; subst; reflexivity|].
   apply ft_skip_opt; [intros t Et Hr; rewrite map_marshal_render; apply ft_skip_tag; [|lit|lit|exact Hr];
@@ -239,11 +244,11 @@ Proof.
   apply no_crlf_lit_app; [reflexivity|apply render_attrs_no_crlf, rendition_attrs_ok; auto].
 Qed.
 
-(* playlist.Unmarshal (Marshal p) has p's kind (and, for Media, is the F4 image of p) *)
+(* playlist.Unmarshal (Marshal p) has p's kind and reproduces p *)
 Theorem unmarshal_media_kind p : wf_media p = true ->
-  exists p', unmarshal orc (media_marshal orc p) = Ok (PMedia p') /\ media_eqvb (f4_image p) p' = true.
+  exists p', unmarshal orc (media_marshal orc p) = Ok (PMedia p') /\ media_eqvb p p' = true.
 Proof.
-  intros H. destruct (media_roundtrip_f4 orc OK p H) as (p' & A & B & _).
+  intros H. destruct (media_roundtrip orc OK p H) as (p' & A & B & _).
   exists p'. split; [|exact B]. unfold unmarshal.
   rewrite (ftrun_fuel _ _ _ (find_type_media p H)) by (apply find_type_safe; lia).
   cbn [bind]. rewrite A. reflexivity.
